@@ -144,6 +144,11 @@ def _eval_with_locals(f, idx, pins, depth=0):
 
 
 def rule_r3(ck, prog, cls='trace::TraceState', rule='C14.R3', api='KeyValueProperties'):
+    rule_r3_copy(ck, prog, cls, rule, api)
+    rule_r3_update(ck, prog, cls, rule, api)
+
+
+def rule_r3_copy(ck, prog, cls='trace::TraceState', rule='C14.R3', api='KeyValueProperties'):
     for name in ('Set', 'Delete'):
         f = prog.function(cls + '::' + name)
         key = f.params[0]
@@ -175,6 +180,9 @@ def rule_r3(ck, prog, cls='trace::TraceState', rule='C14.R3', api='KeyValuePrope
             why = 'the copy callback adds every existing entry unconditionally'
         ck.verdict(ok, rule, f, '%s:copy-excludes-key' % name, None, 'existing entries are copied only when their key differs from the given key' if ok else
                    '%s: %s: the old entry of the key survives next to the new one (duplicate member)' % (name, why) if name == 'Set' else '%s: %s: the key is not removed' % (name, why))
+
+
+def rule_r3_update(ck, prog, cls='trace::TraceState', rule='C14.R3', api='KeyValueProperties'):
     # Set: an update of an existing key is never refused
     f = prog.function(cls + '::Set')
     g = Graph(prog, f, inline=None, sync_lambdas=False)
